@@ -41,8 +41,7 @@ int main(int argc, char** argv)
   tg.push_back({"tria-big", [](Tape& t, Ctx& c) { dispatch(t, c, cat_tria, true); }, 160, 4, 60000});
   tg.push_back({"hexa-big", [](Tape& t, Ctx& c) { dispatch(t, c, cat_hexa, true); }, 160, 4, 60000});
   tg.push_back({"tetra-big", [](Tape& t, Ctx& c) { dispatch(t, c, cat_tetra, true); }, 160, 4, 60000});
-#ifdef C18_WITH_GLOBAL
   tg.push_back({"global", [](Tape& t, Ctx& c) { c18::global_case(t, c, false); }, 128, 3, 20000});
-#endif
+  tg.push_back({"global-big", [](Tape& t, Ctx& c) { c18::global_case(t, c, true); }, 160, 4, 60000});
   return main_impl(argc, argv, tg);
 }
